@@ -53,6 +53,9 @@ func main() {
 		prop := fs.String("property", "", "property id")
 		fs.Parse(os.Args[2:])
 		os.Exit(cmdCheck(*prop))
+	case "verdicts":
+		// qvet verdicts — one load, every rule once, the verdict per property (no evidence written): what tools/*_rerun.sh use
+		os.Exit(cmdVerdicts())
 	case "explain":
 		if len(os.Args) < 3 {
 			fmt.Fprintln(os.Stderr, "usage: qvet explain <replay.json>")
@@ -409,4 +412,67 @@ func cmdExplain(path string) int {
 		fmt.Println("on the current tree: the construct is no longer reported by this rule")
 	}
 	return 0
+}
+
+// cmdVerdicts: the verdict of every property's quick check from one load of the tree; prints `<prop> ok` or `<prop> ALARM` with the
+// offending obligations. Nothing is written.
+func cmdVerdicts() int {
+	c := NewCtx(repoDir())
+	c.Load()
+	if len(c.LoadErr) > 0 {
+		fmt.Println("LOAD ERRORS:", c.LoadErr)
+		return 1
+	}
+	known, _ := loadKnown(verifDir())
+	cache := map[string][]Obl{}
+	ids := []string{}
+	for id := range properties {
+		ids = append(ids, id)
+	}
+	sort.Strings(ids)
+	rc := 0
+	for _, prop := range ids {
+		p := properties[prop]
+		var bad []Obl
+		for _, id := range p.Rules {
+			r := ruleByID(id)
+			if r == nil {
+				continue
+			}
+			obls, ok := cache[id]
+			if !ok {
+				obls = runRule(c, r)
+				cache[id] = obls
+			}
+			if p.Filter != nil {
+				obls = p.Filter(id, append([]Obl{}, obls...))
+			}
+			for _, o := range obls {
+				if o.Status != Violation && o.Status != Undecided {
+					continue
+				}
+				isK := false
+				for i := range known {
+					k := &known[i]
+					if o.Status == Violation && k.Status == "known" && k.Property == prop && k.Rule == o.Rule && k.Key == o.Key {
+						isK = true
+					}
+				}
+				if !isK {
+					bad = append(bad, o)
+				}
+			}
+		}
+		if len(bad) == 0 {
+			fmt.Printf("%s ok\n", prop)
+			continue
+		}
+		rc = 1
+		fmt.Printf("%s ALARM\n", prop)
+		sortObls(bad)
+		for _, o := range bad {
+			fmt.Printf("   [%s] %-9s %-4s %s  [%s] %s\n", prop, o.Status, o.Rule, o.Key, o.Pos, firstLines(o.Msg, 1))
+		}
+	}
+	return rc
 }
